@@ -710,8 +710,14 @@ func (c *Ctx) applyContractAt(s *State, fr *Frame, site string, pos token.Pos, f
 		c.oblige(s, "pre", fmt.Sprintf("%s@%s.%s", calleeName, site, lb), goal, "precondition of "+calleeName+": "+r.Text, pos)
 	}
 	for i, p := range fc.PanicsWhen {
-		goal := simplifyNot(env.evalBool(p.Expr))
+		calleeCond := env.evalBool(p.Expr)
+		goal := simplifyNot(calleeCond)
+		// a callee panic is allowed where the function under verification is itself allowed to panic
+		if own := c.ownPanicCond(s); own != "" {
+			goal = fmt.Sprintf("(or %s %s)", goal, own)
+		}
 		c.oblige(s, "pre", fmt.Sprintf("%s@%s.nopanic%d", calleeName, site, i), goal, calleeName+" does not panic: not("+p.Text+")", pos)
+		c.assume(s, simplifyNot(calleeCond)) // execution continues past the call
 	}
 	old := s.snapshot()
 	if fc.ModGiven {
@@ -823,6 +829,10 @@ func (c *Ctx) invoke(s *State, fr *Frame, x *ssa.Call, com *ssa.CallCommon, args
 	}
 	if c.eng.effectFreeIface(typeName(it)) {
 		c.assumptions["methods of "+typeName(it)+" are effect-free on modelled state"] = true
+		return c.freshResults(s, "r."+mname, sig.Results())
+	}
+	if n := namedOf(it); n != nil && n.Obj().Pkg() != nil && !strings.HasPrefix(n.Obj().Pkg().Path(), c.eng.modPath) {
+		c.assumptions["methods of out-of-module interface "+typeName(it)+" do not modify modelled state"] = true
 		return c.freshResults(s, "r."+mname, sig.Results())
 	}
 	c.lastCallee = key
@@ -1481,4 +1491,84 @@ func (c *Ctx) rangeNext(s *State, fr *Frame, x *ssa.Next) []*State {
 	c.typeRangeAssume(s, val)
 	fr.regs[x] = TupleV{E: []Val{Scalar{okc, SBool, types.Typ[types.Bool]}, k, val}, Ty: x.Type()}
 	return nil
+}
+
+// ownPanicCond: the disjunction of the verified function's own "panics when" conditions, evaluated at entry.
+func (c *Ctx) ownPanicCond(s *State) string {
+	if c.fc == nil || len(c.fc.PanicsWhen) == 0 || c.entryEnvVars == nil {
+		return ""
+	}
+	env := c.newSpecEnv(s, nil)
+	if c.fn != nil && c.fn.Pkg != nil {
+		env.pkg = c.fn.Pkg.Pkg
+	}
+	env.vars = c.entryEnvVars
+	env.heap = map[string]string{}
+	env.old = map[string]string{}
+	var ds []string
+	for _, p := range c.fc.PanicsWhen {
+		ds = append(ds, env.evalBool(p.Expr))
+	}
+	if len(ds) == 1 {
+		return ds[0]
+	}
+	return "(or " + strings.Join(ds, " ") + ")"
+}
+
+// modPremises returns, for heap `name`, the conjuncts saying that (r[, j]) is outside the modifies set.
+func (c *Ctx) modPremises(name string, mods []modEntry, r, j string) (prem []string, whole bool, needIdx bool) {
+	for _, m := range mods {
+		if m.heap != name {
+			continue
+		}
+		switch {
+		case m.kind == modWholeHeap:
+			whole = true
+		case m.kind == modElemAt:
+			needIdx = true
+			prem = append(prem, fmt.Sprintf("(not (and (= %s %s) (= %s %s)))", r, m.ref, j, m.idx))
+		case m.kind == modSingle, m.kind == modElems && isElemHeap(name), m.kind == modMapAll:
+			prem = append(prem, fmt.Sprintf("(not (= %s %s))", r, m.ref))
+		case m.kind == modElems:
+			prem = append(prem, fmt.Sprintf("(not (and ((_ is mkelem) %s) (= (earr %s) %s)))", r, r, m.ref))
+		}
+	}
+	return
+}
+
+// havocLoop: at a loop head every heap that may have been written so far or is named in the loop's modifies set gets a
+// new version that agrees with the old one outside the modifies set and outside objects allocated since loop entry.
+func (c *Ctx) havocLoop(s *State, mods []modEntry, allocBase string) {
+	if modsAll(mods) {
+		c.havocAll(s)
+		return
+	}
+	names := map[string]string{}
+	for n := range s.touched {
+		names[n] = c.heapSorts[n]
+	}
+	for _, m := range mods {
+		names[m.heap] = m.sort
+	}
+	var ks []string
+	for n := range names {
+		ks = append(ks, n)
+	}
+	sort.Strings(ks)
+	for _, name := range ks {
+		hs := names[name]
+		old := c.heapTerm(s, name, hs)
+		prem, whole, needIdx := c.modPremises(name, mods, "r", "j")
+		n := c.havocHeapNamed(s, name, hs)
+		if whole {
+			continue
+		}
+		prem = append([]string{fmt.Sprintf("(< (rootid r) %s)", allocBase)}, prem...)
+		if needIdx {
+			js := firstIndexSort(innerSort(hs))
+			c.assume(s, fmt.Sprintf("(forall ((r Ref) (j %s)) (! (=> (and %s) (= (select (select %s r) j) (select (select %s r) j))) :pattern ((select (select %s r) j))))", js, strings.Join(prem, " "), n, old, n))
+		} else {
+			c.assume(s, fmt.Sprintf("(forall ((r Ref)) (! (=> (and %s) (= (select %s r) (select %s r))) :pattern ((select %s r))))", strings.Join(prem, " "), n, old, n))
+		}
+	}
 }
